@@ -22,6 +22,8 @@
 //   - EPUB 2 vs 3              = Book.Version (2: NCX + spine toc=…, 3: nav document with
 //     properties="nav"; Book.BothNav writes both, as most EPUB 3 producers do)
 //   - optional parts           = Book.OmitNav (no NCX / nav), Book.OmitMimetype, Book.NavInSpine
+//   - companion resources      = Book.Resources (manifest items outside the spine, e.g. one CSS
+//     per chapter, linked through Chapter.Head)
 //   - decoys                   = Book.Decoys: content documents that are not in the spine
 //     (Chapter.InManifest: listed in the manifest or only present in the archive)
 //   - absent spine file        = Chapter.Absent (manifest item + itemref exist, file does not)
@@ -59,6 +61,12 @@ type Chapter struct {
 	MediaType  string // default application/xhtml+xml
 }
 
+// Resource is a non-spine publication resource (stylesheet, image, ...): a manifest item plus its file.
+type Resource struct {
+	ID, Href, MediaType string // Href relative to the OPF, as written in the manifest
+	Data                string
+}
+
 // Book is the logical publication plus packaging choices.
 type Book struct {
 	Version int // 2 or 3 (default 3)
@@ -67,8 +75,9 @@ type Book struct {
 
 	Title, Author, Language, Identifier string
 
-	Chapters []Chapter // SPINE order
-	Decoys   []Chapter // not in the spine
+	Chapters  []Chapter  // SPINE order
+	Decoys    []Chapter  // not in the spine
+	Resources []Resource // optional companion resources (written after the infrastructure members)
 
 	ManifestOrder []int // order of the chapter <item>s: permutation of 0..len(Chapters)-1 (nil: spine order)
 	PartOrder     []int // ZIP order of the content members: permutation over Chapters followed by Decoys (nil: as listed)
@@ -199,6 +208,7 @@ func ChapterXHTML(c Chapter) string {
 	} else {
 		b.WriteString(`<title></title>`)
 	}
+	b.WriteString(c.Head)
 	b.WriteString(`</head><body>`)
 	if c.Title != "" {
 		fmt.Fprintf(&b, `<h1>%s</h1>`, Esc(c.Title))
@@ -267,6 +277,9 @@ func (b *Book) Members() []zipw.Member {
 			fmt.Fprintf(&o, `<item id="%s" href="%s" media-type="%s"/>`, Esc(c.ID), Esc(c.Href), Esc(c.MediaType))
 		}
 	}
+	for _, r := range b.Resources {
+		fmt.Fprintf(&o, `<item id="%s" href="%s" media-type="%s"/>`, Esc(r.ID), Esc(r.Href), Esc(r.MediaType))
+	}
 	o.WriteString(`</manifest>`)
 	if wantNCX {
 		o.WriteString(`<spine toc="ncx">`)
@@ -332,6 +345,9 @@ func (b *Book) Members() []zipw.Member {
 	}
 	if wantNav {
 		infra = append(infra, zipw.M(inDir("nav.xhtml"), nav.String()))
+	}
+	for _, r := range b.Resources {
+		infra = append(infra, zipw.M(Resolve(opfPath, r.Href), r.Data))
 	}
 	po := b.PartOrder
 	if po == nil {
